@@ -12,6 +12,7 @@ class Resp:
     __slots__ = ("minor", "code", "reason", "fields", "body", "framing", "start", "end", "head_end", "problems", "complete")
 
     def __init__(self):
+        self.minor = self.code = self.reason = self.start = self.head_end = None
         self.problems = []
         self.fields = []
         self.body = b""
